@@ -103,6 +103,7 @@ class Instantiater(abc.ABC):
             that modifies `circuit` in place rather than returning a copy.
         """
         target = self.check_target(target)
+        self.check_target_dim(circuit, target)
         start_gen = RandomStartGenerator()
         starts = start_gen.gen_starting_points(num_starts, circuit, target)
         cost_fn = HilbertSchmidtCostGenerator().gen_cost(circuit, target)
@@ -128,6 +129,7 @@ class Instantiater(abc.ABC):
         """
         from bqskit.runtime import get_runtime
         target = self.check_target(target)
+        self.check_target_dim(circuit, target)
         start_gen = RandomStartGenerator()
         starts = start_gen.gen_starting_points(num_starts, circuit, target)
         cost_fn = HilbertSchmidtCostGenerator().gen_cost(circuit, target)
@@ -159,6 +161,18 @@ class Instantiater(abc.ABC):
             ValueError: If `circuit` can be instantiated with this
                 instantiater.
         """
+
+    @staticmethod
+    def check_target_dim(
+        circuit: Circuit,
+        target: UnitaryMatrix | StateVector | StateSystem,
+    ) -> None:
+        """Raise ValueError if `target` does not match `circuit`'s size."""
+        if target.dim != circuit.dim:
+            raise ValueError(
+                'Target dimension mismatch with circuit;'
+                f' expected {circuit.dim}, got {target.dim}.',
+            )
 
     def check_target(
         self,
